@@ -187,6 +187,10 @@ func isASCII(s string) bool {
 
 // checkExprThroughLinter: rejected text yields exactly one expression diagnostic inside the
 // placeholder; accepted text yields no syntax diagnostic. src must be YAML-plain-safe.
+// c04Prefix is literal text put before the placeholder in the same scalar (it must not change how
+// the placeholder is analysed).
+var c04Prefix = ""
+
 func checkExprThroughLinter(src string, viaIf bool) (key, msg string) {
 	_, wok := eg.Parse(src + "}}")
 	var y string
@@ -195,8 +199,8 @@ func checkExprThroughLinter(src string, viaIf bool) (key, msg string) {
 		y = "on: push\njobs:\n  a:\n    runs-on: ubuntu-latest\n    if: " + src + "\n    steps:\n      - run: echo\n"
 		line, c0, c1 = 5, 9, 9+len(src)
 	} else {
-		y = "on: push\njobs:\n  a:\n    runs-on: ubuntu-latest\n    steps:\n      - run: echo\n        env:\n          X: ${{" + src + "}}\n"
-		line, c0, c1 = 8, 14, 14+3+len(src)+2
+		y = "on: push\njobs:\n  a:\n    runs-on: ubuntu-latest\n    steps:\n      - run: echo\n        env:\n          X: " + c04Prefix + "${{" + src + "}}\n"
+		line, c0, c1 = 8, 14+len(c04Prefix), 14+len(c04Prefix)+3+len(src)+2
 	}
 	ds, err, pan, st := lintSafe([]byte(y))
 	if pan != nil {
@@ -488,8 +492,15 @@ func TestC04(t *testing.T) {
 			} else {
 				r.Class("linter/placeholder")
 			}
-			if k, m := checkExprThroughLinter(src, viaIf); k != "" {
-				r.Fail(rt, k, m, "C04/expr", &exprCase{Src: src})
+			c04Prefix = ""
+			if !viaIf {
+				c04Prefix = rapid.SampledFrom([]string{"", "", "text ", "x }} y ", "x{a:{b:1}} ", "${{ 'ok' }} ", "${{ 'ok' }} }} "}).Draw(rt, "prefix")
+			}
+			k, m := checkExprThroughLinter(src, viaIf)
+			pfx := c04Prefix
+			c04Prefix = ""
+			if k != "" {
+				r.Fail(rt, k+map[bool]string{true: "(text-before-placeholder)", false: ""}[pfx != ""], "text before the placeholder: "+pfx+"\n"+m, "C04/expr", &exprCase{Src: src})
 			}
 		})
 	})
